@@ -737,13 +737,17 @@ theorem step_reg (conds : Nat → Cond α) (s : Reg α) (o : Op α) :
       | .clear => []
       | .reset => s.reg
       | .solve _ _ _ _ => s.reg
-      | .ttpInit is => is.map (fun i => (i, false)) := by
+      | .ttpInit is => is.map (fun i => (i, false))
+      | .setPBM _ => s.reg
+      | .regrid _ _ _ _ => s.reg := by
   cases o with
   | add i b => rfl
   | clear => rfl
   | reset => rfl
   | solve d tf fuel k0 => rfl
   | ttpInit is => exact ttpInit_reg s is
+  | setPBM cfgs => rfl
+  | regrid p mn mx b => rfl
 
 theorem after_cons (conds : Nat → Cond α) (s : Reg α) (o : Op α) (ops : List (Op α)) :
     s.after conds (o :: ops) = (s.step conds o).after conds ops := rfl
@@ -857,6 +861,8 @@ theorem after_noAnd_allOr (conds : Nat → Cond α) (ops : List (Op α)) (s : Re
       | reset => exact hs
       | solve d tf fuel k0 => exact hs
       | ttpInit is => simp [Op.addsAnd] at ho
+      | setPBM cfgs => exact hs
+      | regrid p mn mx b => exact hs
     · intro o' ho'; exact hops o' (List.mem_cons_of_mem _ ho')
 
 /-- **after `clearStoppingConditions()`, with no and-condition registered since, the and-branch
@@ -968,6 +974,94 @@ theorem ttp_sees_only_its_conditions (conds : Nat → Cond α) (s s' : Reg α) (
     unfold Reg.entries resetAll
     rw [ttpInit_reg]
     simp [List.map_map, Function.comp]
+
+/-! #### reset keeps the configuration (population balance models) -/
+
+theorem regridAt_cfg (mn mx : α) (b p : Nat) (l : List (PBMState α)) :
+    (regridAt mn mx b p l).map (fun x => x.cfg) = l.map (fun x => x.cfg) := by
+  induction l generalizing p with
+  | nil => cases p <;> rfl
+  | cons x xs ih =>
+    cases p with
+    | zero => rfl
+    | succ p => simp [regridAt, ih]
+
+theorem foldl_add_pbm (is : List Nat) (s : Reg α) :
+    (is.foldl (fun s i => s.add i false) s).pbm = s.pbm := by
+  induction is generalizing s with
+  | nil => rfl
+  | cons i is ih => simp only [List.foldl_cons]; rw [ih]; rfl
+
+theorem ttpInit_pbm (s : Reg α) (is : List Nat) : (s.ttpInit is).pbm = s.pbm := by
+  unfold Reg.ttpInit; rw [foldl_add_pbm]; rfl
+
+/-- **`reset()` keeps the configuration**: afterwards the model holds the same number of population
+balance models with the same configuration (limits, class counts, adaptive and recording flags),
+each on its own configured initial grid, and the registered stopping conditions are the same. -/
+theorem reset_keeps_configuration (s : Reg α) :
+    s.resetModel.pbm.map (fun x => x.cfg) = s.pbm.map (fun x => x.cfg) ∧
+    s.resetModel.pbm.length = s.pbm.length ∧
+    (∀ p ∈ s.resetModel.pbm, p.gMin = p.cfg.cMin ∧ p.gMax = p.cfg.cMax ∧ p.gBins = p.cfg.bins) ∧
+    s.resetModel.reg = s.reg := by
+  refine ⟨?_, ?_, ?_, rfl⟩
+  · simp [Reg.resetModel, PBMState.reset, List.map_map, Function.comp_def]
+  · simp [Reg.resetModel]
+  · intro p hp
+    simp only [Reg.resetModel, List.mem_map] at hp
+    obtain ⟨q, _, rfl⟩ := hp
+    exact ⟨rfl, rfl, rfl⟩
+
+/-- one call other than `setPBMParameters` leaves the configuration of every population balance model alone -/
+theorem step_keeps_configuration (conds : Nat → Cond α) (s : Reg α) (o : Op α)
+    (ho : ∀ cfgs, o ≠ .setPBM cfgs) :
+    (s.step conds o).pbm.map (fun x => x.cfg) = s.pbm.map (fun x => x.cfg) := by
+  cases o with
+  | add i b => rfl
+  | clear => rfl
+  | reset => exact (reset_keeps_configuration s).1
+  | solve d tf fuel k0 => rfl
+  | ttpInit is => show (s.ttpInit is).pbm.map _ = _; rw [ttpInit_pbm]
+  | setPBM cfgs => exact absurd rfl (ho cfgs)
+  | regrid p mn mx b => exact regridAt_cfg mn mx b p s.pbm
+
+/-- **any history** of add / clear / reset / solve (with whatever re-meshing) / TTP-constructor calls
+keeps what `setPBMParameters` / `setPSDrecording` configured -/
+theorem history_keeps_configuration (conds : Nat → Cond α) (ops : List (Op α)) (s : Reg α)
+    (hops : ∀ o ∈ ops, ∀ cfgs, o ≠ .setPBM cfgs) :
+    (s.after conds ops).pbm.map (fun x => x.cfg) = s.pbm.map (fun x => x.cfg) := by
+  induction ops generalizing s with
+  | nil => rfl
+  | cons o ops ih =>
+    rw [after_cons, ih _ (fun o' ho' => hops o' (List.mem_cons_of_mem _ ho'))]
+    exact step_keeps_configuration conds s o (hops o (List.mem_cons_self ..))
+
+/-- **the TTP run of every temperature is made on the configured grid**: after `_getStopTime`
+(reset; solve) the population balance models are the model's own, each reset to its configured grid
+(the run's re-meshing is an input, `Op.regrid`) -/
+theorem ttp_runs_on_configured_grid (conds : Nat → Cond α) (s : Reg α) (is : List Nat)
+    (d : PData α) (tf : α) (fuel : Nat) :
+    (Reg.ttpStopTimes conds (s.ttpInit is) is d tf fuel).2.pbm = s.pbm.map PBMState.reset := by
+  show ((s.ttpInit is).resetModel).pbm = _
+  show (s.ttpInit is).pbm.map PBMState.reset = _
+  rw [ttpInit_pbm]
+
+/-- **witness, reset that replaces the population balance models by default ones** (the code before
+repair 9231d6f): whenever some configured model differs from the default, the configuration after
+`reset()` is not the configured one — every later run (each temperature of a TTP calculation) is made
+on the default grid. -/
+theorem reset_default_loses_configuration (dflt : PBMCfg α) (s : Reg α) (p : PBMState α)
+    (hp : p ∈ s.pbm) (hne : p.cfg ≠ dflt) :
+    (s.resetModelDefault dflt).pbm.map (fun x => x.cfg) ≠ s.pbm.map (fun x => x.cfg) ∧
+    ∀ q ∈ (s.resetModelDefault dflt).pbm, q.cfg = dflt := by
+  refine ⟨?_, ?_⟩
+  · intro h
+    simp only [Reg.resetModelDefault, List.map_map] at h
+    have := List.map_inj_left.mp h p hp
+    exact hne this.symm
+  · intro q hq
+    simp only [Reg.resetModelDefault, List.mem_map] at hq
+    obtain ⟨_, _, rfl⟩ := hq
+    rfl
 
 /-! #### witnesses: the two broken variants -/
 
@@ -1094,5 +1188,18 @@ example : (∀ j, j < 3 → demo.time j < (5/2 : ℚ)) ∧ ¬ demo.time 3 < (5/2
   intro j hj
   have : j = 0 ∨ j = 1 ∨ j = 2 := by omega
   rcases this with rfl | rfl | rfl <;> simp [demo] <;> norm_num
+
+-- hypothesis set of `reset_default_loses_configuration`: a configured model that is not the default one
+example : (PBMState.ofCfg (⟨1, 100, 75, 50, 100, true, true⟩ : PBMCfg ℚ)) ∈
+      ({ latches := fun _ => Latch.clear, reg := [], pbm := [PBMState.ofCfg ⟨1, 100, 75, 50, 100, true, true⟩] } : Reg ℚ).pbm ∧
+    (PBMState.ofCfg (⟨1, 100, 75, 50, 100, true, true⟩ : PBMCfg ℚ)).cfg ≠ (⟨1, 10, 150, 100, 200, true, false⟩ : PBMCfg ℚ) := by
+  refine ⟨List.mem_singleton.mpr rfl, ?_⟩
+  intro h
+  simp [PBMState.ofCfg] at h
+-- `history_keeps_configuration`: a history without setPBMParameters
+example : ∀ o ∈ ([.reset, .regrid 0 1 50 60, .ttpInit [0], .reset] : List (Op ℚ)), ∀ cfgs, o ≠ .setPBM cfgs := by
+  intro o ho cfgs
+  simp only [List.mem_cons, List.not_mem_nil, or_false] at ho
+  rcases ho with rfl | rfl | rfl | rfl <;> simp
 
 end KawinV.Props.C19
